@@ -15,16 +15,21 @@ MANIFEST = dict(
          "flag-to-builder mapping composed with it = the same fold on the world's rule files (decide_eq_world); one "
          "lemma per flag (--hidden, --no-ignore-dot/-vcs/-exclude/-global/-parent/-files, --no-ignore, -u/-uu/-uuu) that "
          "it removes exactly its own source; an explicitly named file is always listed; file_name = last path component "
-         "(D4 refuted on the pinned text, repaired by a fix: commit). Tie to the code: extracted model vs `rg --files` "
-         "and vs ignore::WalkBuilder on generated trees, plus an independent Python statement of the documented rules.",
+         "(D4 refuted on the pinned text, repaired by a fix: commit); add_parents and add_child_path agree on what a "
+         "repository root is for every kind of .git entry, directory or gitfile (repo_root_test_uniform). Tie to the code: extracted model vs `rg --files` "
+         "and vs ignore::WalkBuilder on generated trees, plus an independent Python statement of the documented rules, "
+         "plus real `git worktree add` trees compared with `git ls-files -o --exclude-standard`.",
     note="trusted: Coq kernel, extraction, OCaml driver, Rust harness, Python oracle. Each compiled ignore file is an "
          "abstract matcher in the theorems (literal-name rules in the generated cases). The path re-basing for "
          "directories above the search root is modelled byte for byte and tested, not proved correct: it is wrong for "
          "root '.' with dot-names and for anchored patterns below depth 1 (known finding ParentRuleRebase). The "
-         "`compiled` cache of add_parents is not modelled.",
+         "`compiled` cache of add_parents is not modelled. With --no-require-git the exclude file of a linked worktree "
+         "(gitfile root) is not found (known finding GitlinkExcludeNoRequire, excluded from decide_eq_world by a class "
+         "predicate; decide_eq_world_as_read is the full-strength form).",
     technique="Coq proof over executable model + extracted-model/rg correspondence + independent rule oracle",
     design="§7 C05")
 KNOWN_REBASE = "ParentRuleRebase"
+KNOWN_GITLINK_EXCLUDE = "GitlinkExcludeNoRequire"
 
 FILE_LIKE = ("f", "fifo", "rlf", "chr")        # command-line paths that are not directories
 SRC = ["rg", "ig", "gi", "ex"]                      # per-directory sources, in precedence order
@@ -91,28 +96,53 @@ def gen_dir(rng, name, depth, budget, p_src, p_git):
     rules = {}
     for s in SRC:
         rules[s] = gen_rules(rng, p_src, RULE_NAMES, rel)
-    has_git = rng.random() < p_git
-    attach_sources(node, rules, has_git)
+    attach_sources(node, rules, gen_git_kind(rng, p_git))
     return node
 
 
+def gen_git_kind(rng, p_git):
+    """what marks a repository root: a `.git` directory, or a `.git` file `gitdir: <path>` (gitrepository-layout(5):
+       linked worktrees and submodules); None = not a repository root"""
+    if rng.random() >= p_git:
+        return None
+    return "file" if rng.random() < 0.45 else "dir"
+
+
 def attach_sources(node, rules, has_git):
-    """materialise rule files and .git as kids; keeps node['rules'] / node['has_git'] for reference only"""
+    """materialise rule files and .git as kids; keeps node['rules'] / node['has_git'] / node['git_kind'] for reference
+       only.  has_git: None/False = no .git, True/"dir" = a .git directory, "file" = a .git file (gitlink)"""
     node["kids"] = [k for k in node["kids"] if k["name"] not in (".rgignore", ".ignore", ".gitignore", ".git")]
     for s in ("rg", "ig", "gi"):
         if rules.get(s):
             node["kids"].append(dict(name=SRC_FILE[s], kind="f", content=rules_text(rules[s])))
-    if has_git or rules.get("ex"):
-        # an exclude file needs a .git directory; then the directory is a repository root
+    kind = None
+    if has_git == "file":
+        kind = "file"
+    elif has_git or rules.get("ex"):
+        kind = "dir"        # an exclude file needs a repository; then the directory is a repository root
+    if kind == "dir":
         norules = {s: [] for s in SRC}
         info = dict(name="info", kind="d", kids=[], rules=dict(norules), has_git=False)
         if rules.get("ex"):
             info["kids"].append(dict(name="exclude", kind="f", content=rules_text(rules["ex"])))
         node["kids"].append(dict(name=".git", kind="d", kids=[info], rules=dict(norules), has_git=False))
+    elif kind == "file":
+        # a gitlink as `git worktree add` writes it: the file names the worktree's private git directory, whose
+        # `commondir` names the shared one, which holds info/exclude.  Both live outside the searched tree; the
+        # file's text is written by materialise (it needs the absolute location).  In the tree it is a (hidden) file.
+        node["kids"].append(dict(name=".git", kind="f", content=None, gitfile=True, ex=list(rules.get("ex") or [])))
     node["rules"] = {s: (rules.get(s) or []) for s in SRC}
-    if not (has_git or rules.get("ex")):
+    if kind is None:
         node["rules"]["ex"] = []
-    node["has_git"] = bool(has_git or rules.get("ex"))
+    node["has_git"] = kind is not None
+    node["git_kind"] = kind
+
+
+def git_kind_of(node):
+    """None / 'dir' / 'file' (cases recorded before the kind existed have only has_git = a directory)"""
+    if "git_kind" in node:
+        return node["git_kind"]
+    return "dir" if node.get("has_git") else None
 
 
 def eff(node):
@@ -120,7 +150,8 @@ def eff(node):
        files), a link to a file is a file"""
     if node["kind"] == "ld":
         t = node["target"]
-        return dict(name=node["name"], kind="d", kids=t["kids"], rules=t["rules"], has_git=t["has_git"])
+        return dict(name=node["name"], kind="d", kids=t["kids"], rules=t["rules"], has_git=t["has_git"],
+                    git_kind=git_kind_of(t))
     if node["kind"] == "lf":
         return dict(name=node["name"], kind="f")
     return node
@@ -152,7 +183,7 @@ def add_links(rng, root):
                 # a directory-only rule naming the link, in one of the host's rule files
                 rules = {k: list(v) for k, v in host["rules"].items()}
                 rules[rng.choice(["rg", "ig", "gi"])].append(dict(neg=rng.random() < 0.2, dironly=True, anch=False, name=name))
-                attach_sources(host, rules, host["has_git"])
+                attach_sources(host, rules, git_kind_of(host))
         else:
             files = [(fc, k) for fc, d, _ in dirs for k in d["kids"] if k["kind"] == "f" and "content" not in k for fc in [fc]]
             if not files:
@@ -166,17 +197,46 @@ def add_links(rng, root):
     return made
 
 
-def materialise(path, node):
+def materialise(path, node, store):
+    """store = [directory outside every searched tree that receives the git directories of gitlinks, counter]"""
     if node["kind"] in ("ld", "lf"):
         os.symlink(node["target_rel"], path)
         return
+    if node.get("gitfile"):
+        write_gitlink(path, node, store)
+        return
     if node["kind"] == "f":
         with open(path, "w") as f:
-            f.write(node.get("content", ""))
+            f.write(node.get("content") or "")
         return
     os.makedirs(path, exist_ok=True)
     for k in node["kids"]:
-        materialise(os.path.join(path, k["name"]), k)
+        materialise(os.path.join(path, k["name"]), k, store)
+
+
+def write_gitlink(path, node, store):
+    """the layout `git worktree add` produces (validated against the installed git by git_worktree_check):
+         <dir>/.git                       file   "gitdir: <store>/main<i>/.git/worktrees/w"
+         <store>/main<i>/.git/worktrees/w/commondir   "../.."  (or the absolute path)
+         <store>/main<i>/.git/info/exclude            the repository's exclude rules"""
+    store[1] += 1
+    common = os.path.join(store[0], "main%d" % store[1], ".git")
+    priv = os.path.join(common, "worktrees", "w")
+    os.makedirs(priv, exist_ok=True)
+    os.makedirs(os.path.join(common, "info"), exist_ok=True)
+    with open(os.path.join(priv, "commondir"), "w") as f:
+        f.write(("../..", common)[store[1] % 2] + "\n")
+    with open(os.path.join(priv, "gitdir"), "w") as f:
+        f.write(path + "\n")
+    with open(os.path.join(priv, "HEAD"), "w") as f:
+        f.write("ref: refs/heads/w\n")
+    with open(os.path.join(common, "HEAD"), "w") as f:
+        f.write("ref: refs/heads/master\n")
+    if node.get("ex"):
+        with open(os.path.join(common, "info", "exclude"), "w") as f:
+            f.write(rules_text(node["ex"]))
+    with open(path, "w") as f:
+        f.write("gitdir: %s\n" % priv)
 
 
 # ----------------------------------------------------------------------------- a case
@@ -190,7 +250,7 @@ def gen_case(rng, idx):
     for n in ("up1", "up0"):
         d = dict(name=n, kind="d", kids=[])
         rules = {s: gen_rules(rng, p_src, RULE_NAMES) for s in SRC}
-        attach_sources(d, rules, rng.random() < p_git)
+        attach_sources(d, rules, gen_git_kind(rng, p_git))
         above.append(d)
     c["above"] = above
     roots = [gen_dir(rng, "r", 1, budget, p_src, p_git)]
@@ -214,6 +274,21 @@ def gen_case(rng, idx):
                     roots.append(dict(name=nm, kind="rld", target=gen_dir(rng, "r3-" + nm.strip("."), 1, [5], p_src, p_git)))
                 else:
                     roots.append(dict(name="/dev/null", kind="chr"))
+    if rng.random() < 0.12:
+        # repository roots above the search root marked by a gitlink, made decisive: git rules of the directories above
+        # name entries that exist in the first root
+        names = [k["name"] for k in roots[0]["kids"] if "content" not in k and k["name"] != ".git" and not k["name"].endswith(".")]
+        which = rng.choice([0, 1, 1, 2])
+        for i, d in enumerate(above):
+            kind = git_kind_of(d)
+            if which in (2, i):
+                kind = "file" if rng.random() < 0.8 else "dir"
+            rules = {s: list(d["rules"][s]) for s in SRC}
+            if names and rng.random() < 0.8:
+                rules[rng.choice(["gi", "gi", "ex"])].append(dict(neg=False, dironly=False, anch=False, name=rng.choice(names)))
+            attach_sources(d, rules, kind)
+        if layout != "multi":
+            layout = rng.choice(["in", "in", "up0", "abs"])
     c["roots"] = roots
     c["layout"] = layout
     if layout == "in":
@@ -334,7 +409,8 @@ def vrulefile(root, rules):
 
 
 def vdirinfo(path, node):
-    return vlist([vbytes(path)] + [vrulefile(path, node["rules"][s]) for s in SRC] + [vbool(node["has_git"])])
+    return vlist([vbytes(path)] + [vrulefile(path, node["rules"][s]) for s in SRC]
+                 + [{None: "0", "dir": "1", "file": "2"}[git_kind_of(node)]])
 
 
 def join(d, n):
@@ -436,8 +512,9 @@ def build_case(c, base):
     os.makedirs(base, exist_ok=True)
     up1 = os.path.join(base, "up1")
     up0 = os.path.join(up1, "up0")
-    materialise(up1, c["above"][0])
-    materialise(up0, c["above"][1])
+    store = [os.path.join(base, "gitstore"), 0]
+    materialise(up1, c["above"][0], store)
+    materialise(up0, c["above"][1], store)
     for r in c["roots"]:
         p = os.path.join(up0, r["name"])
         if r["kind"] == "fifo":
@@ -450,12 +527,12 @@ def build_case(c, base):
                 f.write("x\n")
             os.symlink(r["target_rel"], p)
         elif r["kind"] == "rld":
-            materialise(os.path.join(up0, r["target"]["name"]), r["target"])
+            materialise(os.path.join(up0, r["target"]["name"]), r["target"], store)
             os.symlink(r["target"]["name"], p)
         elif r["kind"] == "chr":
             pass
         else:
-            materialise(p, r)
+            materialise(p, r, store)
     write_global_env(c, base)
     for i, rf in enumerate(c["ignore_files"]):
         with open(os.path.join(base, "igf%d" % i), "w") as f:
@@ -649,6 +726,24 @@ def in_rebase_class(c, diff):
     return True
 
 
+def in_gitlink_exclude_class(c):
+    """known finding GitlinkExcludeNoRequire: --no-require-git given, exclude rules on, and some directory of the case is
+       a gitlink root (`.git` a file) whose repository has info/exclude rules: the code takes dir/.git for the git
+       directory and finds no exclude file (theorem decide_eq_world excludes exactly --no-require-git + gitfile root)"""
+    fl = o_flags(c)
+    if not fl["norequire"] or fl["vcs"] or fl["exclude"]:
+        return False
+
+    def has(n):
+        n = eff(n)
+        if n["kind"] != "d" or "rules" not in n:
+            return False
+        if git_kind_of(n) == "file" and n["rules"]["ex"]:
+            return True
+        return any(has(k) for k in n["kids"])
+    return any(has(d) for d in c["above"]) or any(has(r["target"] if r["kind"] == "rld" else r) for r in c["roots"])
+
+
 def features(c):
     f = []
     fl = c["flags"]
@@ -659,6 +754,11 @@ def features(c):
         f += ["above:" + s for s in SRC if d["rules"][s]]
         if d["has_git"]:
             f.append("above:.git")
+            f.append("above:.git-" + git_kind_of(d))
+            if c["layout"] == "in":
+                f.append("search root strictly below a repository root (.git %s)" % git_kind_of(d))
+    if sum(1 for d in c["above"] if d["has_git"]) + sum(1 for r in c["roots"] if r.get("has_git")) >= 2:
+        f.append("nested repository roots at/above the search root")
 
     def rec(n, depth):
         for s in SRC:
@@ -670,6 +770,7 @@ def features(c):
                     f.append("anchored-rule")
         if n["has_git"]:
             f.append("depth%d:.git" % depth)
+            f.append("inside:.git-" + git_kind_of(n))
         for k in n["kids"]:
             if k["kind"] in ("ld", "lf"):
                 f.append("symlink-to-" + ("dir" if k["kind"] == "ld" else "file") + " (-L)")
@@ -743,6 +844,8 @@ def check_cases(ctx, cases, base0, stats):
             stats["oracle!=rg"] = stats.get("oracle!=rg", 0) + 1
             if in_rebase_class(c, diff) and model == rg:
                 ctx.known(KNOWN_REBASE, "args=%r cwd=%s differing=%r" % (rg_args(c, base), c["cwd"], diff))
+            elif in_gitlink_exclude_class(c) and model == rg:
+                ctx.known(KNOWN_GITLINK_EXCLUDE, "args=%r cwd=%s differing=%r" % (rg_args(c, base), c["cwd"], diff))
             else:
                 g = genv_of(c)
                 ctx.violation("rg --files differs from the documented precedence of filters on: %r; env: ~/.gitconfig=%s, %s/git/config=%s, "
@@ -833,6 +936,100 @@ def check_lib_cases(ctx, cases, base0, stats):
                                model_line=ml, code_line=hl), nfi=True)
 
 
+def git_worktree_check(ctx, base0, stats):
+    """The installed git decides what a repository root is: a real `git worktree add` makes directories whose `.git` is a
+       file, stand-alone and nested inside another work tree.  From strict sub-directories of those roots (and from the
+       roots themselves) `rg --files` must list exactly the files git reports as untracked and not ignored
+       (`git ls-files -o --exclude-standard`; no hidden names besides the rule files).  The hand-made gitlink layout of
+       the generated cases is validated here too: git must accept it as a work tree root."""
+    git = shutil.which("git")
+    if git is None:
+        ctx.notes.append("git is not installed: the real-worktree comparison did not run")
+        return
+    w = os.path.join(base0, "gitwt")
+    home = os.path.join(w, "home")
+    os.makedirs(home)
+    env = dict(os.environ)
+    env.update(HOME=home, XDG_CONFIG_HOME=os.path.join(home, ".config"), GIT_CONFIG_NOSYSTEM="1", GIT_CONFIG_GLOBAL="/dev/null",
+               GIT_AUTHOR_NAME="n", GIT_AUTHOR_EMAIL="n@example.org", GIT_COMMITTER_NAME="n", GIT_COMMITTER_EMAIL="n@example.org")
+    for k in ("GIT_DIR", "GIT_WORK_TREE", "GIT_COMMON_DIR", "RIPGREP_CONFIG_PATH"):
+        env.pop(k, None)
+
+    def g(cwd, *args):
+        return subprocess.run([git] + list(args), cwd=cwd, env=env, stdin=subprocess.DEVNULL, stdout=subprocess.PIPE,
+                              stderr=subprocess.PIPE, timeout=120)
+
+    def put(path, text=""):
+        os.makedirs(os.path.dirname(path), exist_ok=True)
+        with open(path, "w") as f:
+            f.write(text)
+    main = os.path.join(w, "main")
+    os.makedirs(main)
+    ok = g(main, "init", "-q").returncode == 0 and g(main, "commit", "-q", "--allow-empty", "-m", "c").returncode == 0
+    wt = os.path.join(w, "wt")               # stand-alone linked worktree
+    nested = os.path.join(main, "sub")       # linked worktree nested in the main work tree (like a submodule root)
+    ok = ok and g(main, "worktree", "add", "-q", "--detach", wt).returncode == 0
+    ok = ok and g(main, "worktree", "add", "-q", "--detach", nested).returncode == 0
+    if not ok or not os.path.isfile(os.path.join(wt, ".git")) or not os.path.isfile(os.path.join(nested, ".git")):
+        ctx.notes.append("the installed git could not create linked worktrees: the real-worktree comparison did not run")
+        return
+    put(os.path.join(main, ".gitignore"), "vendor\n")
+    put(os.path.join(main, ".git", "info", "exclude"), "excl\n")
+    for root in (wt, nested):
+        put(os.path.join(root, ".gitignore"), "ignored\n")
+        put(os.path.join(root, "src", ".gitignore"), "local\n!vendor2\n")
+        for n in ("keep", "ignored", "local", "excl", "vendor", "deep/keep2", "deep/ignored", "deep/vendor", "deep/er/k"):
+            put(os.path.join(root, "src", n), "x\n")
+        put(os.path.join(root, "top"), "x\n")
+    put(os.path.join(main, "m"), "x\n")
+    put(os.path.join(main, "vendor"), "x\n")
+    # the hand-made layout of write_gitlink: git must take the directory for a work tree root
+    hand = os.path.join(w, "hand")
+    os.makedirs(os.path.join(hand, "d"))
+    store = [os.path.join(w, "gitstore"), 0]
+    for i in range(2):
+        hd = os.path.join(hand, "h%d" % i)
+        os.makedirs(os.path.join(hd, "d"))
+        write_gitlink(os.path.join(hd, ".git"), dict(ex=[dict(neg=False, dironly=False, anch=False, name="excl")]), store)
+        common = os.path.join(store[0], "main%d" % store[1], ".git")
+        for sub in ("objects", "refs/heads"):
+            os.makedirs(os.path.join(common, sub), exist_ok=True)
+        r = g(os.path.join(hd, "d"), "rev-parse", "--show-toplevel")
+        top = r.stdout.decode("utf-8", "replace").strip()
+        stats["git accepts the hand-made gitlink layout"] = stats.get("git accepts the hand-made gitlink layout", 0) + (1 if r.returncode == 0 else 0)
+        if r.returncode != 0 or os.path.realpath(top) != os.path.realpath(hd):
+            ctx.violation("the installed git does not take the generated gitlink layout for a work tree root: %s %s"
+                          % (top, r.stderr.decode("utf-8", "replace")[:200]), dict(kind="gitlink-layout"), nfi=True)
+    n = 0
+    for root in (wt, nested, main):
+        for rel in (".", "src", "src/deep", "src/deep/er"):
+            cwd = os.path.join(root, rel)
+            if not os.path.isdir(cwd):
+                continue
+            r = g(cwd, "ls-files", "-o", "--exclude-standard")
+            if r.returncode != 0:
+                ctx.violation("git ls-files failed in a generated worktree: " + r.stderr.decode("utf-8", "replace")[:200],
+                              dict(kind="gitlink-layout"), nfi=True)
+                continue
+            # the nested worktree is a repository of its own: git reports it as one entry `sub/`, rg descends into it
+            # (its content is compared from inside it); leave it out on both sides
+            inner = (lambda x: x.startswith("sub/")) if root == main else (lambda x: False)
+            want = sorted(x for x in r.stdout.decode().split("\n")
+                          if x and not inner(x) and not any(p.startswith(".") for p in x.split("/")))
+            for extra in ([], ["-j3"], ["--no-ignore-parent"] if rel == "." else ["-j1"]):
+                p = subprocess.run([vlib.RG, "--no-config", "--files", "--no-messages"] + extra, cwd=cwd, env=env,
+                                   stdin=subprocess.DEVNULL, stdout=subprocess.PIPE, stderr=subprocess.PIPE, timeout=300)
+                got = sorted(x for x in p.stdout.decode("utf-8", "replace").split("\n") if x and not inner(x))
+                n += 1
+                ctx.note_case("gitwt:%s:%s:%s" % (os.path.relpath(root, w), rel, extra), True)
+                if p.returncode not in (0, 1) or got != want:
+                    ctx.violation("rg --files differs from `git ls-files -o --exclude-standard` in a real linked worktree (root marked by a "
+                                  ".git file): cd %s/%s && rg --files %s: rg lists %r, git lists %r"
+                                  % (os.path.relpath(root, w), rel, " ".join(extra), got, want),
+                                  dict(kind="gitwt", root=os.path.relpath(root, w), rel=rel, args=extra, rg=got, git=want))
+    stats["real git worktree comparisons"] = n
+
+
 def corpus_cases():
     """hand-written corner cases: one conflict per adjacent source pair, depth vs source order, D4 names"""
     def d(name, kids, rules=None, git=False):
@@ -886,6 +1083,35 @@ def corpus_cases():
         c.update(above=[d("up1", []), d("up0", [])], flags=fl, roots=[d("r", [f("a"), f("b")], {"gi": [R("a")]})])
         c["global"] = [R("b")]
         res.append(c)
+    # repository roots marked by a `.git` FILE (linked worktree, submodule), above and inside the search root, the search
+    # root a strict sub-directory; with and without --no-require-git, one and three threads
+    for nr in (False, True):
+        for th in (1, 3):
+            for lay, cwd, sp in (("in", "up1/up0/r", [None]), ("up0", "up1/up0", ["r"])):
+                fl = dict(noflags)
+                fl["norequire"] = nr
+                common = dict(base)
+                common.update(layout=lay, cwd=cwd, spell=sp, flags=fl, threads=th)
+                # a stand-alone linked worktree: its .gitignore applies below it
+                c = dict(common)
+                c.update(above=[d("up1", []), d("up0", [], {"gi": [R("ignored")], "ex": [R("excl")]}, git="file")],
+                         roots=[d("r", [f("keep"), f("ignored"), f("local"), f("excl"), d("sub", [f("keep2"), f("ignored")])],
+                                  {"gi": [R("local")]})])
+                res.append(c)
+                # a gitlink root inside a repository: the outer .gitignore stops at it
+                c = dict(common)
+                c.update(above=[d("up1", [], {"gi": [R("vendor")]}, git="dir"), d("up0", [], {"gi": [R("subignored")]}, git="file")],
+                         roots=[d("r", [f("vendor"), f("subignored"), f("keep")])])
+                res.append(c)
+                # gitlink above gitlink; the search root itself a gitlink root
+                c = dict(common)
+                c.update(above=[d("up1", [], {"gi": [R("a")]}, git="file"), d("up0", [], {"gi": [R("b")]}, git="file")],
+                         roots=[d("r", [f("a"), f("b"), f("k")])])
+                res.append(c)
+                c = dict(common)
+                c.update(above=[d("up1", [], {"gi": [R("a")]}, git="file"), d("up0", [])],
+                         roots=[d("r", [f("a"), f("k"), d("sub", [f("a"), f("k")], {"gi": [R("k")]}, git="file")], git="file")])
+                res.append(c)
     # the known finding: root '.', a dot-name, a rule above the root
     fl = dict(noflags)
     fl["hidden"] = True
@@ -900,7 +1126,8 @@ def corpus_cases():
 def run(ctx):
     rng = ctx.rng
     ctx.cov["rule"] = ("a case = a generated tree (<= 24 entries, depth <= 3) with any subset of .rgignore/.ignore/.gitignore/"
-                       ".git/info/exclude at depths -2..3 (two directories above the root), global gitignore, --ignore-file, "
+                       ".git/info/exclude at depths -2..3 (two directories above the root), repository roots marked by a .git directory "
+                       "or a .git file (linked-worktree layout), global gitignore, --ignore-file, "
                        "-g, -t/-T/--type-add, --max-depth, roots '.', './', implicit, relative, absolute, several, a file; "
                        "flags from the ten filter switches. non-trivial = rg lists at least one file and at least one rule "
                        "source or flag is present; distinct by model case text.")
@@ -910,6 +1137,7 @@ def run(ctx):
         corp = corpus_cases()
         os.makedirs(os.path.join(base0, "corpus"))
         check_cases(ctx, corp, os.path.join(base0, "corpus"), stats)
+        git_worktree_check(ctx, base0, stats)
         n = ctx.count(1200)
         done = 0
         batch = 0
@@ -950,10 +1178,13 @@ def run(ctx):
 
 def replay(ctx, data):
     r = data["replay"]
-    c = r["case"]
     base0 = scratch_base()
     try:
         stats = {}
+        if r.get("kind") in ("gitwt", "gitlink-layout"):
+            git_worktree_check(ctx, base0, stats)
+            return
+        c = r["case"]
         check_cases(ctx, [c], base0, stats)
     finally:
         shutil.rmtree(base0, ignore_errors=True)
